@@ -13,6 +13,9 @@ python3 - <<'PY'
 import sys, os
 sys.path.insert(0, "lib")
 import framework
-r = framework.Run("setup", "quick", 0)
-print("driver:", r.build_driver(), "harness:", r.build_harness(), r.broken)
+import glob
+for f in sorted(glob.glob("coq/extraction/Extract_*.v")):
+    area = os.path.basename(f)[8:-2]
+    r = framework.Run("setup", "quick", 0)
+    print(area, "driver:", r.build_driver(area), "harness:", r.build_harness(area), r.broken)
 PY
